@@ -1,7 +1,7 @@
 /-
   C01 (part) — printing a PHIL tree and re-parsing the text reproduces the tree (up to ids and source
   positions) and the second print is byte-identical: the unbounded theorems for TREES OF NESTED SCOPES
-  (any depth, any number of children, empty scopes, dotted "merged" chains `a.b.c {` / `a.b = 1`
+  (any depth, any number of children, empty scopes, dottedName "merged" chains `a.b.c {` / `a.b = 1`
   as `scope.adopt` builds them), at every print width.  Property theorems only; the lemmas are in
   Phil/Proofs/PrintParseNested.lean and Phil/Proofs/DottedNames.lean.  The flat case (a root scope
   holding definitions only) is Phil/Props/C01RoundTrip.lean; it is the special case `RTDefn.toTree`.
@@ -20,16 +20,16 @@ attribute [local instance] objDecEqInst exceptDecEqRT
 
 /-! ### the class of trees
 
-  * `PlainMeta mg m`: the object data `m` is `{ name, id, line, mergeNames := mg }` — enabled, no
+  * `PlainMetaPP mg m`: the object data `m` is `{ name, id, line, mergeNames := mg }` — enabled, no
     attributes, `is_template = 0`; `primary_id` and source line are arbitrary.
   * `RTNode ms x` (Phil/Proofs/PrintParseNested.lean, by recursion on the tree): `x` stands below the
     chain `ms` of scopes that merge their names into its printed name.
-      - a definition: `PlainMeta (ms ≠ []) m`, `goodName m.name`, the printed dotted name
-        `dotted ms m.name` is not a reserved identifier, at least one word, every word `goodWord`;
-      - a scope: `PlainMeta (ms ≠ []) m`, `goodName m.name`, and its children are
+      - a definition: `PlainMetaPP (ms ≠ []) m`, `goodName m.name`, the printed dottedName name
+        `dottedName ms m.name` is not a reserved identifier, at least one word, every word `goodWord`;
+      - a scope: `PlainMetaPP (ms ≠ []) m`, `goodName m.name`, and its children are
           either (proper scope, printed `name {` … `}`) any number — also none — of trees `RTNode []`,
-            the printed dotted name not being reserved,
-          or (dotted chain) exactly one tree `RTNode (ms ++ [m.name])`, whose `merge_names` is True.
+            the printed dottedName name not being reserved,
+          or (dottedName chain) exactly one tree `RTNode (ms ++ [m.name])`, whose `merge_names` is True.
   * `RTTree x := RTNode [] x`: an object of the root scope or of a proper scope. -/
 
 /-- the class of trees the nested round trip is proved for -/
@@ -40,7 +40,7 @@ instance (x : Obj) : Decidable (RTTree x) := by unfold RTTree; exact inferInstan
 /-- `RTTree` for a definition, spelled out: exactly the flat class `RTDefn` -/
 theorem RTTree_defn (m : Meta) (ws : List Word) :
     RTTree (.defn m ws) ↔
-      (PlainMeta false m ∧ goodName m.name = true ∧ ws ≠ [] ∧ ∀ w ∈ ws, goodWord w = true) := by
+      (PlainMetaPP false m ∧ goodName m.name = true ∧ ws ≠ [] ∧ ∀ w ∈ ws, goodWord w = true) := by
   unfold RTTree RTNode
   constructor
   · rintro ⟨h1, h2, _, h4, h5⟩; exact ⟨h1, h2, h4, h5⟩
@@ -49,11 +49,11 @@ theorem RTTree_defn (m : Meta) (ws : List Word) :
 /-- `RTTree` for a scope, spelled out -/
 theorem RTTree_scope (m : Meta) (os : List Obj) :
     RTTree (.scope m os) ↔
-      (PlainMeta false m ∧ goodName m.name = true ∧
+      (PlainMetaPP false m ∧ goodName m.name = true ∧
         ((∀ c ∈ os, RTTree c) ∨ ∃ c, os = [c] ∧ RTNode [m.name] c)) := by
   unfold RTTree
   rw [RTNode]
-  have hres : ∀ h : goodName m.name = true, isReserved (dotted [] m.name) = false :=
+  have hres : ∀ h : goodName m.name = true, isReserved (dottedName [] m.name) = false :=
     fun h => goodName_not_reserved h
   constructor
   · rintro ⟨h1, h2, h3⟩
@@ -81,9 +81,9 @@ theorem rtAll_of_forall {objs : List Obj} (h : ∀ x ∈ objs, RTTree x) : RTAll
 
   `treeText w x ms ind` (by recursion on the tree) is the text printed for `x` at print width `w`
   with pending merged names `ms` at indentation `ind`:
-    * a definition: `ind ++ dotted-name ++ " =" ++ wrapTail … ++ "\n"` (the value, wrapped at `w`
+    * a definition: `ind ++ dottedName-name ++ " =" ++ wrapTail … ++ "\n"` (the value, wrapped at `w`
       exactly as in the flat case, continuation lines indented by `ind` plus the width of `name =`);
-    * a proper scope: `ind ++ dotted-name ++ " {\n"`, the children at indentation `ind ++ "  "`,
+    * a proper scope: `ind ++ dottedName-name ++ " {\n"`, the children at indentation `ind ++ "  "`,
       `ind ++ "}\n"` (an empty scope: the two lines `name {` and `}`);
     * a scope whose first child merges names: the children, with the scope's name pending.
   `kidsText w objs [] []` is the text of a whole document. -/
@@ -97,13 +97,13 @@ theorem print_tree (o : ShowOpts) (hl : o.level = 0) (objs : List Obj) (h : ∀ 
 /-! ### the round trip -/
 
 /-- **Nested scopes at any width, exact condition.**  For every print width: if every definition of
-    every tree satisfies `wrapOK` for that width *at the indentation and with the dotted name it is
+    every tree satisfies `wrapOK` for that width *at the indentation and with the dottedName name it is
     printed with* (`WrapsOK`, by recursion on the tree: the indentation grows by two blanks per proper
     scope), then the printed text parses and the parser returns the same trees up to ids and source
     positions (`eraseList`: same nesting, names, `merge_names` flags, words with values and quote
     styles).  Ids: `idsList objs'` (document order, a scope before its children) is
     `expIdsSeq 1 objs` — one id per printed item (definition line or `name {` header) counted from 1
-    in document order; the scopes of a dotted chain `a.b.c` share the id of their item. -/
+    in document order; the scopes of a dottedName chain `a.b.c` share the id of their item. -/
 theorem print_parse_tree_exact (o : ShowOpts) (hl : o.level = 0) (objs : List Obj)
     (h : ∀ x ∈ objs, RTTree x) (hok : ∀ x ∈ objs, WrapsOK o.width x [] []) :
     ∃ text objs', asStr o (rootOf objs) = .ok text ∧ text = kidsText o.width objs [] [] ∧
@@ -126,7 +126,7 @@ theorem print_parse_tree (o : ShowOpts) (hl : o.level = 0) (objs : List Obj)
     (fun x hx => wrapsOK_of_nlOnlyLast o.width x [] [] (hnl x hx))
   exact ⟨text, objs', h1, h2, h3, h4⟩
 
-/-- **Nested scopes, nothing wrapped.**  If every printed definition line — indentation, dotted name,
+/-- **Nested scopes, nothing wrapped.**  If every printed definition line — indentation, dottedName name,
     ` =` and all words — fits into `width - 2` columns (`Fits`, the indentation included) and in no
     definition an unquoted word directly follows a word that contains a newline (`ChainOK`, as in the
     flat case), the text is `flatKids objs [] []` (no continuation lines) and the round trip holds. -/
@@ -153,7 +153,7 @@ theorem print_parse_tree_nowrap (o : ShowOpts) (hl : o.level = 0) (objs : List O
   rw [htext] at h1 h2
   exact ⟨h1, objs', h2, h3, h4⟩
 
-/-- **Ids without dotted chains.**  When no scope merges its name (`noChains`), every object is a
+/-- **Ids without dottedName chains.**  When no scope merges its name (`noChains`), every object is a
     printed item and the parser numbers the objects `1, 2, …, n` in document order (a scope before its
     children), `n` the number of objects of the document. -/
 theorem tree_ids_noChains (objs : List Obj) (h : ∀ x ∈ objs, x.noChains) :
@@ -275,7 +275,7 @@ example : ∃ text root', asStr { width := 14 } (rootOf exTree) = .ok text ∧ p
     second_print_identical_tree_any_width { width := 14 } rfl exTree exTree_ok exTree_nl
   ⟨text, root', h1, h2, h3⟩
 
-/-- a document without dotted chains: ids 1..n -/
+/-- a document without dottedName chains: ids 1..n -/
 example : expIdsSeq 1 [Obj.scope { name := ['a'] } [.defn { name := ['y'] } [{ value := ['2'] }],
       .scope { name := ['b'] } []], .defn { name := ['w'] } [{ value := ['4'] }]] = [1, 2, 3, 4] := by
   rw [tree_ids_noChains _ (by decide +kernel)]
@@ -308,10 +308,10 @@ theorem indentation_changes_wrapping :
     ¬ WrapsOK 27 (.scope { name := ['s'] } [edgeDefn]) [] [] := by
   decide +kernel
 
-/-- **A dotted chain may print a reserved identifier.**  The scope `__a` holding the single
+/-- **A dottedName chain may print a reserved identifier.**  The scope `__a` holding the single
     definition `b__` with `merge_names` (neither name is reserved) prints as `__a.b__ = 1`; the
-    parser tests the FULL dotted name and refuses it (Python: `Reserved identifier: "__a.b__" (input
-    line 1)`).  Hence the hypothesis `isReserved (dotted ms name) = false` in `RTNode`. -/
+    parser tests the FULL dottedName name and refuses it (Python: `Reserved identifier: "__a.b__" (input
+    line 1)`).  Hence the hypothesis `isReserved (dottedName ms name) = false` in `RTNode`. -/
 theorem dotted_chain_prints_reserved_name :
     asStr {} (rootOf [.scope { name := "__a".toList }
         [.defn { name := "b__".toList, mergeNames := true } [{ value := ['1'] }]]])
@@ -325,7 +325,7 @@ theorem dotted_chain_prints_reserved_name :
 /-- **A merging scope with two children is split.**  The scope `a` holding `b` and `c`, both with
     `merge_names`, prints as `a.b = 1` / `a.c = 2`; the parser builds TWO scopes `a` (ids 1 and 2),
     so the tree is not reproduced — although the second print IS byte-identical.  Hence "exactly one
-    child" in the dotted-chain case of `RTNode`. -/
+    child" in the dottedName-chain case of `RTNode`. -/
 theorem merging_scope_with_two_children_is_split :
     let t : List Obj := [.scope { name := ['a'] }
       [.defn { name := ['b'], mergeNames := true } [{ value := ['1'] }],
@@ -354,7 +354,7 @@ theorem merging_scope_with_two_children_is_split :
   cases h
   decide +kernel
 
-/-- **The last component of a dotted name escapes the reserved-identifier test.**  `a.__b__ = 1` is
+/-- **The last component of a dottedName name escapes the reserved-identifier test.**  `a.__b__ = 1` is
     accepted (model and Python) and yields a definition named `__b__` inside `a`, although
     `a {` / `__b__ = 1` / `}` is refused; such trees do print and re-parse, but they are outside
     `RTTree` (`goodName` excludes reserved names). -/
